@@ -85,20 +85,30 @@ class PyDims:
             else:
                 env[a.arg] = self.fresh_param(inst, owner, a.arg, d)
         passthrough = dict(bindings)
-        for st in body_without_docstring(fn):
-            calls = [c for c in ast.walk(st) if isinstance(c, ast.Call) and isinstance(c.func, ast.Attribute) and c.func.attr == "__init__"
-                     and isinstance(c.func.value, ast.Call) and norm(c.func.value.func) == "super"]
-            if calls:
-                nb = dict(passthrough)
-                for k in calls[0].keywords:
-                    if k.arg:
-                        nb[k.arg] = self.ev(k.value, env, inst, fn, "__init__")
-                self._init_parent(inst, owner, nb, done)
-                continue
-            if isinstance(st, ast.Assign) and self_attr(st.targets[0]):
-                inst.attrs[self_attr(st.targets[0])] = self.ev(st.value, env, inst, fn, "__init__", owner)
-            elif isinstance(st, ast.Assign) and isinstance(st.targets[0], ast.Name):
-                env[st.targets[0].id] = self.ev(st.value, env, inst, fn, "__init__", owner)
+        def run(stmts) -> None:
+            for st in stmts:
+                # constructor statements wherever they sit (validation written as guard clause or as if / else)
+                if isinstance(st, (ast.If, ast.Try, ast.With, ast.For)):
+                    for fld in ("body", "orelse", "finalbody"):
+                        run(getattr(st, fld, None) or [])
+                    if isinstance(st, ast.Try):
+                        for h in st.handlers:
+                            run(h.body)
+                    continue
+                calls = [c for c in ast.walk(st) if isinstance(c, ast.Call) and isinstance(c.func, ast.Attribute) and c.func.attr == "__init__"
+                         and isinstance(c.func.value, ast.Call) and norm(c.func.value.func) == "super"]
+                if calls:
+                    nb = dict(passthrough)
+                    for k in calls[0].keywords:
+                        if k.arg:
+                            nb[k.arg] = self.ev(k.value, env, inst, fn, "__init__")
+                    self._init_parent(inst, owner, nb, done)
+                    continue
+                if isinstance(st, ast.Assign) and self_attr(st.targets[0]):
+                    inst.attrs[self_attr(st.targets[0])] = self.ev(st.value, env, inst, fn, "__init__", owner)
+                elif isinstance(st, ast.Assign) and isinstance(st.targets[0], ast.Name):
+                    env[st.targets[0].id] = self.ev(st.value, env, inst, fn, "__init__", owner)
+        run(body_without_docstring(fn))
 
     def _init_parent(self, inst: Instance, owner: ClassInfo, bindings: Dict[str, V], done: set) -> None:
         mro = self.prog.mro(inst.cls)
